@@ -1,7 +1,7 @@
 /- C02 — the definition actually read is reported.
    Statements only; proofs are in Den/Lemmas*.lean.  Model: Den/Model.lean (`A`, `at_`: supp's tables),
    Den/Sem.lean (`Exec`, `Reach`: Python's binding semantics, tests and raise points as oracle decisions). -/
-import SuppModel.Den.Lemmas2
+import SuppModel.Den.Lemmas6
 namespace SuppModel.Props.C02
 open SuppModel.Den
 
@@ -57,6 +57,48 @@ theorem C02_no_false_unused (ks : List Ident) (s : Stmt) (σ σr : State) (r : R
     markedUsed ks s T F d :=
   ⟨r, x, hread, C02_sound ks s σ σr r x T F d hfrag hown hlate hreach hT hx⟩
 
+/-! ## the executable semantics
+
+`run` is what the driver evaluates and what the harness compares, decision sequence by decision sequence, with the
+instrumented CPython execution (stream 'Sem = CPython').  It is sound for the relational semantics the theorems above
+are about, so "the model's run agrees with CPython on this decision sequence" + `run_sound` + `C02_sound` give: the site
+CPython observed is among supp's definitions. -/
+
+/-- whenever `run` returns (not out of fuel) on a statement it is defined for (`runWf`), there is an `Exec` derivation
+    with that outcome and final state, and every new trace event `(r, v)` is a reachable read: some execution evaluates
+    `r` in a state where the read's name holds `v` -/
+theorem run_sound (n : Nat) (s : Stmt) (st : RunSt) (o : Outcome) (st' : RunSt)
+    (hw : runWf s = true) (h : run n s st = some (o, st')) :
+    Exec s st.σ o st'.σ ∧ ∃ evs, st'.tr = evs ++ st.tr ∧
+      ∀ r v, (r, v) ∈ evs → ∃ x σr, (r, x) ∈ readsOf s ∧ Reach s st.σ r σr ∧ σr x = v := by
+  obtain ⟨_, he, evs, ht, hev⟩ := (runOK n).1 s st o st' hw h
+  exact ⟨he, evs, ht, fun r v hm => hev (r, v) hm⟩
+
+/-- the same for a whole program run by the driver (`runProg`: from the all-unbound state, empty trace) -/
+theorem runProg_sound (prog : Stmt) (ds : List Bool) (o : Outcome) (trace : List (RId × Option Site))
+    (hw : runWf prog = true) (h : runProg prog ds = some (o, trace)) :
+    ∀ r v, (r, v) ∈ trace → ∃ x σr, (r, x) ∈ readsOf prog ∧ Reach prog State.init r σr ∧ σr x = v := by
+  unfold runProg at h
+  rcases hr : run 400 prog { σ := State.init, ds := ds, tr := [] } with _ | ⟨o', st'⟩
+  · simp [hr] at h
+  · simp only [hr, Option.some.injEq, Prod.mk.injEq] at h
+    obtain ⟨_, rfl⟩ := h
+    obtain ⟨_, evs, ht, hev⟩ := run_sound 400 prog _ o' st' hw hr
+    intro r v hm
+    simp only [List.append_nil] at ht
+    exact hev r v (by rw [← ht]; simpa using hm)
+
+/-- executable run ⇒ supp's answer: a site the model's run observes at a read of this program is among the definitions
+    supp lists for that read's name (module level: everything unbound on entry) -/
+theorem run_observed_listed (ks : List Ident) (prog : Stmt) (ds : List Bool) (o : Outcome)
+    (trace : List (RId × Option Site)) (F : Tbl) (r : RId) (d : Site)
+    (hw : runWf prog = true) (hfrag : inC02 prog = true) (h : runProg prog ds = some (o, trace))
+    (hm : (r, some d) ∈ trace) (hown : r ∉ nestedReads prog) :
+    ∃ x, (r, x) ∈ readsOf prog ∧ (lateRead prog r x = false → some d ∈ (at_ ks prog r Tbl.empty F).get x) := by
+  obtain ⟨x, σr, hx, hreach, hv⟩ := runProg_sound prog ds o trace hw h r (some d) hm
+  exact ⟨x, hx, fun hl => C02_sound ks prog State.init σr r x Tbl.empty F d hfrag hown hl hreach
+    (by intro d' hd; simp [State.init] at hd) hv⟩
+
 /-! non-vacuity -/
 
 /-- `c = …; while c: c = …` : the test read (id 1) is evaluated again after the body and then sees site 2 -/
@@ -65,6 +107,8 @@ def exWhile : Stmt := .seq (.bind "c" 1) (.while_ (.read "c" 1) (.bind "c" 2) .s
 example : Reach exWhile State.init 1 ((State.init.upd "c" 1).upd "c" 2) :=
   .seqN .bind (.whileStep .read .bind (.inl rfl) (.whileS .readStop))
 example : inC02 exWhile = true := by decide
+example : runWf exWhile = true := by decide
+example : (runProg exWhile [true, false]).map (·.2) = some [(1, some 1), (1, some 2)] := by decide
 example : some 2 ∈ (at_ [] exWhile 1 Tbl.empty Tbl.empty).get "c" := by decide
 example : some 1 ∈ (at_ [] exWhile 1 Tbl.empty Tbl.empty).get "c" := by decide
 
@@ -81,7 +125,7 @@ example : Reach exLoop State.init 7 ((State.init.upd "a" 1).upd "b" 2 |>.upd "a"
 /-- a read in a handler sees what the try body bound before the raise point at its end -/
 def exTry : Stmt := .tryx false true (.bind "a" 1) (.hcons .skip .skip (.read "a" 3) .hnil) .skip
 example : inC02 exTry = true := by decide
-example : Reach exTry State.init 3 (State.init.upd "a" 1) := .tryX2 .bind (.hMatch .skip .skip .readStop)
+example : Reach exTry State.init 3 (State.init.upd "a" 1) := .tryX2 .bind (.hMatchS .skip .skip .readStop)
 example : (at_ [] exTry 3 Tbl.empty Tbl.empty).get "a" = [none, some 1] := by decide
 
 /-- a comprehension `[… i … for i in a]`: the element's read of the comprehension variable -/
